@@ -6,7 +6,7 @@ import subprocess
 VERIF = os.path.dirname(os.path.dirname(os.path.abspath(__file__)))
 
 MC = "model_checking"
-TECH_G = "TLA+ spec (InfOCFSem) model-checked by TLC against literature theorems; TLC-enumerated vectors replayed into the real code; recorded answers validated by TLC (Trace_Ops)"
+TECH_G = "TLA+ spec (InfOCFSem + as-coded recursions in InfOCFAlgo) model-checked by TLC against literature theorems and against each other; TLC-enumerated vectors and TLC-found distinguishing inputs replayed into the real code; recorded answers validated by TLC (Trace_Ops)"
 
 CHECKS = {
     "C01": dict(
@@ -40,7 +40,7 @@ CHECKS = {
         ref="6 C07",
     ),
     "C06": dict(
-        text="Consistency verdicts and tolerance partitions of both variants against Part(B) of the spec for every base of the 2-atom universe (all shapes, both modes), TLC-validated partitions and diagnostics flags for sampled bases with fact lists, and refusal (error, not answer) of every operator/back-end/mode exactly when the spec's PrepRefuse condition holds.",
+        text="Consistency verdicts and tolerance partitions of both variants against Part(B) of the spec for every base of the 2-atom universe (all shapes, both modes), TLC-validated partitions and diagnostics flags for sampled bases with fact lists, and refusal (error, not answer) of every operator/back-end/mode exactly when the spec's PrepRefuse condition holds. The layer loop itself is a TLA+ state machine (TolLoop.tla) that TLC shows to compute Part(B) with the push/pop discipline and to fail without it. Thorough: every base of <=3 conditionals (95 283).",
         note="Same trusted base as C01; order inside a layer is not part of the meaning and is not compared.",
         ref="6 C06",
     ),
@@ -70,18 +70,18 @@ CHECKS = {
         ref="6 C10", tech="TLC enumeration of the token-string universe with a TLA+ recognizer (spec -> code replay) plus TLC trace validation of recorded parser calls",
     ),
     "C15": dict(
-        text="(a) For every conditional over formula trees of depth <= 1 on {a,b,Top,Bottom} (exhaustive) and sampled deeper ones, the clause sets of belief_base_to_cnf/query_to_cnf are decided per total assignment by independent SAT calls and TLC compares them with the truth table it evaluates from the trees. (b) Every MCS enumeration call recorded while System W / lex / c-inference run (rc2 with several SAT engines, z3) and direct calls on synthetic hard/soft/ignore combinations are validated by TLC against the inclusion-minimal falsification sets, each exactly once, empty iff the hard part is unsatisfiable.",
+        text="(a) For every conditional over formula trees of depth <= 1 on {a,b,Top,Bottom} (exhaustive) and sampled deeper ones, the clause sets of belief_base_to_cnf/query_to_cnf are decided per total assignment by independent SAT calls and TLC compares them with the truth table it evaluates from the trees. (b) Every MCS enumeration call recorded while System W / lex / c-inference run (rc2 with several SAT engines, z3) and direct calls on synthetic hard/soft/ignore combinations are validated by TLC against the inclusion-minimal falsification sets, each exactly once, empty iff the hard part is unsatisfiable. The enumeration loop is a TLA+ state machine (McsEnum.tla) model-checked for all families over 3 keys and EVERY order in which models may arrive (so for every SAT engine), and the rc2 loop's recorded model sequence is validated step by step against it (Trace_McsEnum).",
         note="Trusted: PySAT minisat22 for the per-assignment SAT calls of the recorder; atoms located in the id pool by name.",
         ref="6 C15", tech="TLC trace validation of recorded CNFs and MCS calls against TLA+ definitions (EvalTree, MinimalSets)",
     ),
     "C13": dict(
-        text="Manager.tla models the call machine as the code structures it (CallStart, PrepSkip/Run/Refuse, Answer in submission order or Spawn + WorkerDone in any order, CallReturn/CallRaise); TLC checks all histories within small bounds and shows that the originally coded text-keyed plumbing variant violates RowsOwnKey. Histories (seeded, and TLC-simulated behaviours) are executed on real managers of every operator/back-end/mode under an external recorder and each recorded trace is validated by TLC against the machine: every event must be matched by the spec action with the logged fields bound, rows must equal the spec's table, no child process may be alive at return.",
+        text="Manager.tla models the call machine as the code structures it (CallStart, PrepSkip/Run/Refuse, Answer in submission order or Spawn + WorkerDone in any order, CallReturn/CallRaise); TLC checks all histories within small bounds and shows that the originally coded text-keyed plumbing variant violates RowsOwnKey. Histories (seeded, and TLC-simulated behaviours) are executed on real managers of every operator/back-end/mode under an external recorder and each recorded trace is validated by TLC against the machine: every event must be matched by the spec action with the logged fields bound, rows must equal the spec's table, no child process may be alive at return. The repository's own tests run under the same recorder (pytest plugin) and every manager they create is validated the same way.",
         note="Reference answer of a query = its answer alone on a fresh manager. Worker completion orders are varied by delays, not enumerated on the real code (they are enumerated in the model).",
         ref="6 C13", tech="TLA+ state machine model-checked by TLC; TLC trace validation of recorded executions (IsEvent pattern); TLC-simulated behaviours replayed",
     ),
     "C14": dict(
         level="fault_enumeration",
-        text="Budget.tla composes the Manager machine with budgets and a clock (documented arithmetic total/preprocessing/per-query, 0 = unlimited); TLC checks NoUnflaggedWrong, no fault-caused exception and no spurious flags for all budget triples, durations and expiry placements. On the real code a virtual clock replaces the deadline and timing clocks: after a dry run that counts them, EVERY observation point of each scenario is turned into an expiry (k-th clock read jumps past all deadlines) or a solver give-up (k-th z3 Optimize.check returns unknown), followed by an un-budgeted call on the same manager; all traces, including the durations handed to Deadline.from_duration, are validated by TLC against Budget.tla.",
+        text="Budget.tla composes the Manager machine with budgets and a clock (documented arithmetic total/preprocessing/per-query, 0 = unlimited); TLC checks NoUnflaggedWrong, no fault-caused exception and no spurious flags for all budget triples, durations and expiry placements. On the real code a virtual clock replaces the deadline and timing clocks: after a dry run that counts them, EVERY observation point of each scenario is turned into an expiry (k-th clock read jumps past all deadlines) or a solver give-up (k-th z3 Optimize.check returns unknown), followed by an un-budgeted call on the same manager; preprocessing durations below, near and above the total budget (negative remaining budget); parallel runs in which a worker hangs beyond budget + 10 s and is terminated by the join (WorkerLost); all traces, including the durations handed to Deadline.from_duration, are validated by TLC against Budget.tla.",
         note="Solver time-outs are simulated by the `unknown` result (the only way the code observes them); faults are injected in sequential evaluation, one parallel run per scenario is validated without faults. Sticky preprocessing-timed-out flag in later calls is accepted as a named deviation (rows are flagged).",
         ref="6 C14", tech="fault enumeration over all clock-observation and solver-check points with an interposed virtual clock; TLC trace validation against Budget.tla; TLC model checking of the budget design",
     ),
